@@ -26,7 +26,7 @@ import (
 func init() { commands["tree"] = treeMain }
 
 var treeKeys = []string{"a", "b", "c", "d"}
-var treeFilters = []string{"null", "all", "lx1", "lx0", "fnx0", "nlx1", "nsa"}
+var treeFilters = []string{"null", "all", "lx1", "lx0", "fnx0", "nlx1", "nsa", "anx0", "anx1"}
 
 type tnode struct {
 	id      int
@@ -52,14 +52,15 @@ type tnode struct {
 }
 
 type treeScn struct {
-	tr    *Tracer
-	rng   *rand.Rand
-	srv   *FakeServer
-	ctl   kcache.Controller
-	nodes []*tnode
-	log   *plog
-	pert  *perturber
-	wgObs sync.WaitGroup
+	tr     *Tracer
+	rng    *rand.Rand
+	srv    *FakeServer
+	ctl    kcache.Controller
+	nodes  []*tnode
+	log    *plog
+	pert   *perturber
+	wgObs  sync.WaitGroup
+	wedged bool
 }
 
 func (s *treeScn) mkFilter(name string) filter.Filter {
@@ -225,6 +226,14 @@ func (h *monHandler) OnDelete(o metav1.Object)       { h.cb("delete", "["+jsObj(
 
 // addNode creates a node of the given kind below publisher node p.
 func (s *treeScn) addNode(p *tnode, kind, mode, fname string) *tnode {
+	var r *tnode
+	if !s.guarded("create-"+kind, len(s.nodes), func() { r = s.addNode1(p, kind, mode, fname) }) {
+		return nil
+	}
+	return r
+}
+
+func (s *treeScn) addNode1(p *tnode, kind, mode, fname string) *tnode {
 	n := &tnode{id: len(s.nodes), kind: kind, parent: p, mode: mode, depth: p.depth + 1, fname: fname}
 	var err error
 	callDesc := fmt.Sprintf(`"node":%d,"kind":%q,"parent":%q,"mode":%q,"filter":%q`, n.id, kind, p.stage, mode, fname)
@@ -399,7 +408,7 @@ func runTreeScenario(w *ndWriter, seed int64, variant string, nEvents int, idx i
 	switch variant {
 	case "overflow":
 		modes = []string{"healthy", "stalled", "pausing", "pausing", "slow", "healthy"}
-		streamLen = []int{0, 1, 99, 100, 101, 250, 400, 700}[idx%8]
+		streamLen = []int{0, 1, 99, 100, 101, 250, 400, 700}[(idx+int(seed/100000))%8]
 		refilterProb = 2
 	case "close":
 		closeProb = 6
@@ -447,7 +456,7 @@ func runTreeScenario(w *ndWriter, seed int64, variant string, nEvents int, idx i
 		close(firstGate)
 	}
 	sinceBarrier := 0
-	for ev := 0; ev < streamLen; ev++ {
+	for ev := 0; ev < streamLen && !s.wedged; ev++ {
 		if variant == "overflow" && streamLen >= 99 {
 			if ev == streamLen/4 {
 				s.pauseAll(true)
@@ -474,7 +483,7 @@ func runTreeScenario(w *ndWriter, seed int64, variant string, nEvents int, idx i
 			time.Sleep(time.Duration(rng.Intn(150)) * time.Microsecond)
 		}
 	}
-	for len(s.nodes) < 3 {
+	for len(s.nodes) < 3 && !s.wedged {
 		newNode()
 		if len(s.publishers()) == 0 {
 			break
@@ -504,6 +513,7 @@ func runTreeScenario(w *ndWriter, seed int64, variant string, nEvents int, idx i
 		tr.LogRaw("drv", "ret.close", `"node":0,"timeout":true`)
 		stuck = true
 	}
+	stuck = stuck || s.wedged
 	s.pauseAll(false)
 	// unblock stalled monitor handlers so that their goroutines can end
 	for _, n := range s.nodes {
@@ -566,6 +576,24 @@ func runTreeScenario(w *ndWriter, seed int64, variant string, nEvents int, idx i
 	return stuck || leak != 0
 }
 
+// guarded runs a driver API call under a watchdog: a call that does not return is recorded and the
+// scenario goes straight to its shutdown phase.
+func (s *treeScn) guarded(what string, node int, fn func()) bool {
+	if s.wedged {
+		return false
+	}
+	ret := make(chan struct{})
+	go func() { fn(); close(ret) }()
+	select {
+	case <-ret:
+		return true
+	case <-time.After(3 * time.Second):
+		s.tr.LogRaw("drv", "blocked", fmt.Sprintf(`"call":%q,"node":%d`, what, node))
+		s.wedged = true
+		return false
+	}
+}
+
 func (s *treeScn) barrier(why string) bool {
 	ok := quiesce(s.tr, 3*time.Second)
 	s.tr.LogRaw("drv", "quiesce", fmt.Sprintf(`"ok":%v,"why":%q`, ok, why))
@@ -586,7 +614,11 @@ func (s *treeScn) randomRefilter(rng *rand.Rand, pct int) {
 	fname := treeFilters[rng.Intn(len(treeFilters))]
 	st := n.stage
 	s.tr.LogRaw("drv", "call.refilter", fmt.Sprintf(`"node":%d,"stage":%q,"filter":%q`, n.id, st, fname))
-	err := n.refil.Refilter(s.mkFilter(fname))
+	var err error
+	f := s.mkFilter(fname)
+	if !s.guarded("Refilter", n.id, func() { err = n.refil.Refilter(f) }) {
+		return
+	}
 	es := ""
 	if err != nil {
 		es = err.Error()
@@ -606,7 +638,9 @@ func (s *treeScn) randomClose(rng *rand.Rand) {
 	}
 	n := c[rng.Intn(len(c))]
 	s.tr.LogRaw("drv", "call.close", fmt.Sprintf(`"node":%d,"stage":%q,"how":"close"`, n.id, n.stage))
-	n.closer.Close()
+	if !s.guarded("Close", n.id, func() { n.closer.Close() }) {
+		return
+	}
 	s.tr.LogRaw("drv", "ret.close", fmt.Sprintf(`"node":%d,"timeout":false`, n.id))
 	// everything below a closed publisher node is closed too (bookkeeping for the driver only)
 	var mark func(x *tnode)
